@@ -484,9 +484,8 @@ enum MKind {
 		/// amplitude / offset were never the target of a `set_` command
 		a_simple: bool,
 		o_simple: bool,
-		/// every phase ever configured (starting / set_phase) was >= 0 and every frequency configured >= 0
-		phase_nonneg: bool,
-		freq_nonneg: bool,
+		/// amplitude is exactly 0 and the offset is an idle link to modulator `.0`: value = map(what it read)
+		chain: Option<(usize, f64, f64, f64, f64, Easing)>,
 		updates: u64,
 	},
 	Tweener {
@@ -497,13 +496,17 @@ enum MKind {
 	},
 	Probe {
 		count: u64,
+		/// index of the modulator it reads (its own index for "self"), if any
+		watch: Option<usize>,
 	},
 }
 struct MMod {
 	kind: MKind,
+	/// the handle has not been dropped
 	alive: bool,
-	/// already part of the arena (a callback has started since the add)
-	dropped: bool,
+	/// part of the arena (a callback has started since the add, and none since the drop)
+	in_arena: bool,
+	pending: bool,
 }
 struct MProbe {
 	watch: Option<usize>,
@@ -513,6 +516,11 @@ struct MProbe {
 }
 struct MClock {
 	speed: Val,
+	/// mirror of the clock: ticks, tick timer; the speed it holds when its modulator does not resolve
+	ticks: u64,
+	timer: f64,
+	held_tps: f64,
+	ok: bool,
 }
 
 fn hull(v: &Val, default: f64, simple: bool) -> Option<(f64, f64)> {
@@ -561,9 +569,9 @@ fn analyse(sc: &Scen, tr: &Trace) -> Analysis {
 	for op in &sc.ops {
 		match op {
 			Op::AddLfo { w, f, a, o, phase } => {
-				let freq_nonneg = match f {
-					Val::Fixed(x) => *x >= 0.0,
-					Val::Mod { olo, ohi, lo, hi, .. } => *olo >= 0.0 && *ohi >= 0.0 && lo != hi,
+				let chain = match (a, o) {
+					(Val::Fixed(z), Val::Mod { id, lo, hi, olo, ohi, e }) if *z == 0.0 => Some((*id, *lo, *hi, *olo, *ohi, *e)),
+					_ => None,
 				};
 				mods.push(MMod {
 					kind: MKind::Lfo {
@@ -575,52 +583,55 @@ fn analyse(sc: &Scen, tr: &Trace) -> Analysis {
 						f_simple: matches!(f, Val::Fixed(_)),
 						a_simple: true,
 						o_simple: true,
-						phase_nonneg: *phase >= 0.0,
-						freq_nonneg,
+						chain,
 						updates: 0,
 					},
 					alive: true,
-					dropped: false,
+					in_arena: false,
+					pending: true,
 				});
-				order.push(mods.len() - 1);
 			}
 			Op::AddTweener { init } => {
-				mods.push(MMod { kind: MKind::Tweener { value_known: Some(*init), tw: None, holding: Some(*init) }, alive: true, dropped: false });
-				order.push(mods.len() - 1);
+				mods.push(MMod { kind: MKind::Tweener { value_known: Some(*init), tw: None, holding: Some(*init) }, alive: true, in_arena: false, pending: true });
 			}
-			Op::AddProbeMod { .. } => {
-				mods.push(MMod { kind: MKind::Probe { count: 0 }, alive: true, dropped: false });
-				order.push(mods.len() - 1);
+			Op::AddProbeMod { watch } => {
+				let w = match *watch {
+					-1 => None,
+					-2 => Some(mods.len()),
+					k => Some(k as usize),
+				};
+				mods.push(MMod { kind: MKind::Probe { count: 0, watch: w }, alive: true, in_arena: false, pending: true });
 			}
 			Op::Drop { id } => {
 				mods[*id].alive = false;
-				mods[*id].dropped = true;
-				order.retain(|x| x != id);
 			}
 			Op::SetTweener { id, target, tw } => {
+				let alive = mods[*id].alive;
 				if let MKind::Tweener { value_known, tw: t, holding } = &mut mods[*id].kind {
-					if mods[*id].alive {
+					if alive {
 						*t = Some((*value_known, *target, tw.clone(), 0.0, Duration::from_nanos(tw.delay_ns.max(0) as u64)));
 						*holding = None;
 					}
 				}
 			}
-			Op::SetLfoParam { id, which, target, .. } => {
+			Op::SetLfoParam { id, which, target, tw } => {
 				if !mods[*id].alive {
 					continue;
 				}
-				if let MKind::Lfo { f_simple, a_simple, o_simple, freq_nonneg, .. } = &mut mods[*id].kind {
+				if let MKind::Lfo { f_simple, a_simple, o_simple, chain, a, .. } = &mut mods[*id].kind {
 					match which {
-						0 => {
-							*f_simple = false;
-							let ok = match target {
-								Val::Fixed(x) => *x >= 0.0,
-								Val::Mod { olo, ohi, lo, hi, .. } => *olo >= 0.0 && *ohi >= 0.0 && lo != hi,
-							};
-							*freq_nonneg = *freq_nonneg && ok;
+						0 => *f_simple = false,
+						1 => {
+							*a_simple = false;
+							*chain = None;
 						}
-						1 => *a_simple = false,
-						_ => *o_simple = false,
+						_ => {
+							*o_simple = false;
+							*chain = match (&*a, target) {
+								(Val::Fixed(z), Val::Mod { id: w, lo, hi, olo, ohi, e }) if *z == 0.0 && *a_simple && tw.delay_ns < 0 && tw.dur_ns == 0 => Some((*w, *lo, *hi, *olo, *ohi, *e)),
+								_ => None,
+							};
+						}
 					}
 				}
 			}
@@ -628,9 +639,8 @@ fn analyse(sc: &Scen, tr: &Trace) -> Analysis {
 				if !mods[*id].alive {
 					continue;
 				}
-				if let MKind::Lfo { phase: ph, phase_nonneg, .. } = &mut mods[*id].kind {
+				if let MKind::Lfo { phase: ph, .. } = &mut mods[*id].kind {
 					*ph = *phase / TAU;
-					*phase_nonneg = *phase_nonneg && *phase >= 0.0;
 				}
 			}
 			Op::SetWave { id, w } => {
@@ -641,21 +651,37 @@ fn analyse(sc: &Scen, tr: &Trace) -> Analysis {
 					*ww = *w;
 				}
 			}
-			Op::AddClock { speed } => clocks.push(MClock { speed: speed.clone() }),
+			Op::AddClock { speed } => clocks.push(MClock { speed: speed.clone(), ticks: 0, timer: 0.0, held_tps: 2.0, ok: true }),
 			Op::AddProbe { watch, v } => probes.push(MProbe { watch: Some(*watch), v: Some(v.clone()), cid: None, last_v: None }),
 			Op::AddClockProbe { cid } => probes.push(MProbe { watch: None, v: None, cid: Some(*cid), last_v: None }),
 			Op::AddDcSound { .. } => {}
 			Op::Cb { frames } => {
+				// on_start_processing: finished modulators leave, then the queued ones join (in order)
+				for mi in 0..mods.len() {
+					if mods[mi].in_arena && !mods[mi].alive {
+						mods[mi].in_arena = false;
+						order.retain(|x| *x != mi);
+					}
+				}
+				for mi in 0..mods.len() {
+					if mods[mi].pending {
+						mods[mi].pending = false;
+						mods[mi].in_arena = true;
+						order.push(mi);
+					}
+				}
 				for len in chunk_lens(sc.ibs, *frames) {
 					let dtc = dt * len as f64;
 					// ---- once per chunk, modulators first, in insertion order, with dt * len ----
 					let mut mod_new: BTreeMap<usize, f64> = BTreeMap::new();
+					let mut seen_by: BTreeMap<usize, Option<f64>> = BTreeMap::new();
 					for &mi in &order {
 						// mirrors of what each modulator does in this chunk
 						match &mut mods[mi].kind {
-							MKind::Probe { count } => {
+							MKind::Probe { count, .. } => {
 								match log.get(pos) {
-									Some(Ev::Mod { id, dt: d, .. }) if *id == mi => {
+									Some(Ev::Mod { id, dt: d, seen }) if *id == mi => {
+										seen_by.insert(mi, *seen);
 										if d.to_bits() != dtc.to_bits() {
 											fail!(None, "once_per_chunk: probe modulator {mi} updated with dt {d:?}, expected dt*len = {dtc:?}");
 										}
@@ -674,7 +700,7 @@ fn analyse(sc: &Scen, tr: &Trace) -> Analysis {
 								if *f_simple {
 									if let Val::Fixed(fr) = f {
 										*phase += dtc * *fr;
-										*phase %= 1.0;
+										*phase = phase.rem_euclid(1.0);
 										if *w == Wave::Sine {
 											let arg = *phase * TAU;
 											an.sin_tab.push((arg, arg.sin()));
@@ -743,12 +769,12 @@ fn analyse(sc: &Scen, tr: &Trace) -> Analysis {
 							match raw {
 								Some(x) => {
 									raw_of.insert(w, *x);
-									if !mods[w].alive {
-										fail!(None, "stale id: modulator {w} was dropped before this callback but still resolves to {x:?}");
+									if !mods[w].in_arena {
+										fail!(None, "stale id: modulator {w} was removed before this callback but still resolves to {x:?}");
 									}
 								}
 								None => {
-									if mods[w].alive {
+									if mods[w].in_arena {
 										fail!(None, "modulator {w} is alive but does not resolve in the mixer");
 									}
 								}
@@ -772,9 +798,7 @@ fn analyse(sc: &Scen, tr: &Trace) -> Analysis {
 												}
 												if is_powf(*e) {
 													let amount = ((x - lo) / (hi - lo)).clamp(0.0, 1.0);
-													if !amount.is_nan() {
-														an.pow_tab.extend(easing_oracle(*e, amount));
-													}
+													an.pow_tab.extend(easing_oracle(*e, amount));
 												}
 											}
 											None => match p.last_v {
@@ -798,21 +822,20 @@ fn analyse(sc: &Scen, tr: &Trace) -> Analysis {
 					}
 					for (&mi, &x) in &raw_of {
 						match &mut mods[mi].kind {
-							MKind::Probe { count } => {
+							MKind::Probe { count, .. } => {
 								if x != *count as f64 {
 									fail!(None, "same-chunk: the mixer read {x:?} from probe modulator {mi} whose update count in this chunk is {count}");
 								}
 							}
-							MKind::Lfo { a, o, a_simple, o_simple, phase_nonneg, freq_nonneg, f_simple, f, .. } => {
-								let fixed_freq_ok = !*f_simple || matches!(f, Val::Fixed(x) if *x >= 0.0);
+							MKind::Lfo { a, o, a_simple, o_simple, .. } => {
+								// any phase, any frequency (F15 repaired): offset +/- |amplitude|
 								if let (Some((alo, ahi)), Some((olo, ohi))) = (hull(a, 1.0, *a_simple), hull(o, 0.0, *o_simple)) {
 									let amax = alo.abs().max(ahi.abs());
 									let exact = alo == ahi && olo == ohi;
 									let slack = if exact { 0.0 } else { 1e-9 * (1.0 + amax + olo.abs() + ohi.abs()) };
 									let (lo, hi) = (olo - amax - slack, ohi + amax + slack);
-									if *freq_nonneg && fixed_freq_ok && x.is_finite() && lo.is_finite() && hi.is_finite() && !(x >= lo && x <= hi) {
-										let cls = if !*phase_nonneg { Some("lfo_negative_starting_phase") } else { None };
-										fail!(cls, "LFO range: modulator {mi} has value {x:?} outside offset +/- |amplitude| = [{lo:?}, {hi:?}]");
+									if x.is_finite() && lo.is_finite() && hi.is_finite() && !(x >= lo && x <= hi) {
+										fail!(None, "LFO range: modulator {mi} has value {x:?} outside offset +/- |amplitude| = [{lo:?}, {hi:?}]");
 									}
 								}
 							}
@@ -822,15 +845,15 @@ fn analyse(sc: &Scen, tr: &Trace) -> Analysis {
 										fail!(None, "tweener {mi}: value {x:?} but it must hold {h:?} exactly (tween finished / idle)");
 									}
 								}
-								if let Some((Some(v0), target, t, time, remaining)) = tw {
+								if let Some((Some(v0), target, t, time, _remaining)) = tw {
 									let monotone = match t.e {
 										Easing::Linear => true,
 										Easing::InPowi(p) | Easing::OutPowi(p) | Easing::InOutPowi(p) => p >= 1,
 										_ => false,
 									};
-									if t.delay_ns >= 0 && *time == 0.0 && (!remaining.is_zero() || true) && *time == 0.0 {
-										// not started counting yet: still exactly the old value
-										if *time == 0.0 && obs64(*v0) != obs64(x) && t.dur_ns > 0 {
+									if *time == 0.0 {
+										// a delayed start that has not begun to count: still exactly the old value
+										if obs64(*v0) != obs64(x) {
 											fail!(None, "tweener {mi}: moved to {x:?} before its delayed start (was {v0:?})");
 										}
 									} else if monotone && v0.is_finite() && target.is_finite() {
@@ -845,6 +868,36 @@ fn analyse(sc: &Scen, tr: &Trace) -> Analysis {
 							}
 						}
 					}
+					// ---- modulator -> modulator: a parameter of a modulator linked to modulator w must equal
+					// map(w's value of THIS chunk); when the reader is updated before w (or w is itself) it cannot
+					let posn = |m: usize| order.iter().position(|x| *x == m);
+					for &ri in &order {
+						let cls_for = |w: usize| -> Option<&'static str> {
+							match (posn(ri), posn(w)) {
+								(Some(pr), Some(pw)) if pw >= pr => Some("modulator_chain_reader_updated_first"),
+								_ => None,
+							}
+						};
+						match &mods[ri].kind {
+							MKind::Probe { watch: Some(w), .. } => {
+								if let (Some(Some(sv)), Some(xm)) = (seen_by.get(&ri), raw_of.get(w)) {
+									if mods[*w].in_arena && !(sv == xm || (sv.is_nan() && xm.is_nan())) {
+										an.fails.push((format!("chain: probe modulator {ri} read {sv:?} from modulator {w} whose value in this chunk is {xm:?}"), cls_for(*w)));
+									}
+								}
+							}
+							MKind::Lfo { chain: Some((w, lo, hi, olo, ohi, e)), f, f_simple, .. } => {
+								if let (Some(xr), Some(xm)) = (raw_of.get(&ri), raw_of.get(w)) {
+									let freq_ok = *f_simple && matches!(f, Val::Fixed(x) if x.is_finite());
+									let want = Mapping { input_range: (*lo, *hi), output_range: (*olo, *ohi), easing: *e }.map(*xm);
+									if mods[*w].in_arena && freq_ok && lo != hi && !(*xr == want || (xr.is_nan() && want.is_nan())) {
+										an.fails.push((format!("chain: LFO {ri} (amplitude 0, offset linked to modulator {w}) has value {xr:?} but map(value of {w} in this chunk = {xm:?}) = {want:?}"), cls_for(*w)));
+									}
+								}
+							}
+							_ => {}
+						}
+					}
 					// modulators nobody read in this chunk: their value is no longer known to the mirror
 					for &mi in &order {
 						if !raw_of.contains_key(&mi) {
@@ -854,6 +907,41 @@ fn analyse(sc: &Scen, tr: &Trace) -> Analysis {
 						}
 					}
 					let _ = &mod_new;
+					// ---- a clock whose speed is linked to a modulator ticks at map(value of THIS chunk) ----
+					for (pid, e) in &seen {
+						if let Ev::ProbeClock { info, .. } = e {
+							let cid = probes[*pid].cid.unwrap();
+							// the sibling parameter probe (same mapping, same modulator) is the next probe
+							let sib = seen.get(&(pid + 1));
+							let c = &mut clocks[cid];
+							let tps = match (&c.speed, sib) {
+								(Val::Fixed(x), _) => Some(*x),
+								(Val::Mod { .. }, Some(Ev::Probe { raw: Some(_), v, .. })) => Some(*v),
+								(Val::Mod { .. }, Some(Ev::Probe { raw: None, .. })) => Some(c.held_tps),
+								_ => None,
+							};
+							match (tps, info) {
+								(Some(tps), Some((ticking, ticks, frac))) if c.ok => {
+									c.held_tps = tps;
+									if !(tps.is_finite() && tps >= 0.0 && tps * dtc < 1000.0) {
+										c.ok = false;
+										continue;
+									}
+									c.timer += tps * dtc;
+									while c.timer >= 1.0 {
+										c.timer -= 1.0;
+										c.ticks += 1;
+									}
+									if !*ticking || *ticks != c.ticks || frac.to_bits() != c.timer.to_bits() {
+										fail!(None, "same-chunk (clock): clock {cid} is at ({ticks}, {frac:?}) but with the speed map(modulator value of this chunk) = {tps:?} ticks/s it must be at ({}, {:?})", c.ticks, c.timer);
+										c.ok = false;
+									}
+								}
+								(_, None) => fail!(None, "clock {cid} does not resolve in the mixer"),
+								_ => {}
+							}
+						}
+					}
 				}
 			}
 		}
@@ -981,16 +1069,19 @@ fn gen_scenario(r: &mut Rng, dyadic: bool, boundary: bool) -> Scen {
 	// kinds of the modulators so far: 0 lfo, 1 tweener, 2 probe
 	let mut kinds: Vec<u8> = vec![];
 	let mut alive: Vec<bool> = vec![];
+	// LFOs built with amplitude exactly 0 (their value is their offset: chain-checkable)
+	let mut zamp: Vec<bool> = vec![];
 	let mut nclocks = 0usize;
 	// a sentinel probe so that chunk boundaries are visible in the log even with nothing else
 	let mut need_sentinel = true;
-	let add_mod = |g: &mut Gen, ops: &mut Vec<Op>, kinds: &mut Vec<u8>, alive: &mut Vec<bool>| {
+	let add_mod = |g: &mut Gen, ops: &mut Vec<Op>, kinds: &mut Vec<u8>, alive: &mut Vec<bool>, zamp: &mut Vec<bool>| {
+		let mut is_zamp = false;
 		let n = kinds.len();
 		let existing: Vec<usize> = (0..n).collect();
 		let k = g.r.below(10);
 		if k < 5 {
 			// LFO; parameters may be linked to any earlier modulator (alive or already dropped)
-			let mut pick_val = |g: &mut Gen, scale: f64, nonneg: bool, fixed: f64| -> Val {
+			let pick_val = |g: &mut Gen, scale: f64, nonneg: bool, fixed: f64| -> Val {
 				if !existing.is_empty() && g.r.chance(1, 3) {
 					let id = *g.r.pick(&existing);
 					g.link(id, scale, nonneg, false)
@@ -999,11 +1090,21 @@ fn gen_scenario(r: &mut Rng, dyadic: bool, boundary: bool) -> Scen {
 				}
 			};
 			let fr = g.freq();
-			let f = pick_val(g, 0.25 / g.chunk_secs(), true, fr);
+			let mut f = pick_val(g, 0.25 / g.chunk_secs(), true, fr);
 			let am = g.small(1.0);
-			let a = pick_val(g, 1.0, false, am);
+			let mut a = pick_val(g, 1.0, false, am);
 			let of = g.small(1.0);
-			let o = pick_val(g, 1.0, false, of);
+			let mut o = pick_val(g, 1.0, false, of);
+			if g.r.chance(1, 3) {
+				// value = offset: a modulator -> modulator chain that can be checked exactly
+				is_zamp = true;
+				f = Val::Fixed(fr);
+				a = Val::Fixed(0.0);
+				if !existing.is_empty() {
+					let id = *g.r.pick(&existing);
+					o = g.link(id, 1.0, false, false);
+				}
+			}
 			let allow_sine = matches!(f, Val::Fixed(_));
 			let w = g.wave(allow_sine);
 			let phase = g.phase();
@@ -1018,6 +1119,7 @@ fn gen_scenario(r: &mut Rng, dyadic: bool, boundary: bool) -> Scen {
 			kinds.push(2);
 		}
 		alive.push(true);
+		zamp.push(is_zamp);
 		// a mixer-side reader for it
 		let id = kinds.len() - 1;
 		let v = g.link(id, 2.0, false, true);
@@ -1025,7 +1127,7 @@ fn gen_scenario(r: &mut Rng, dyadic: bool, boundary: bool) -> Scen {
 	};
 	let nmods0 = g.r.range(1, 3);
 	for _ in 0..nmods0 {
-		add_mod(&mut g, &mut ops, &mut kinds, &mut alive);
+		add_mod(&mut g, &mut ops, &mut kinds, &mut alive, &mut zamp);
 		need_sentinel = false;
 	}
 	let _ = need_sentinel;
@@ -1037,7 +1139,7 @@ fn gen_scenario(r: &mut Rng, dyadic: bool, boundary: bool) -> Scen {
 		for _ in 0..ncmd {
 			let n = kinds.len();
 			match g.r.below(10) {
-				0 if n < 6 => add_mod(&mut g, &mut ops, &mut kinds, &mut alive),
+				0 if n < 6 => add_mod(&mut g, &mut ops, &mut kinds, &mut alive, &mut zamp),
 				1 => {
 					let id = g.r.below(n as u64) as usize;
 					if alive[id] && g.r.chance(1, 2) {
@@ -1059,6 +1161,13 @@ fn gen_scenario(r: &mut Rng, dyadic: bool, boundary: bool) -> Scen {
 					let cands: Vec<usize> = (0..n).filter(|i| kinds[*i] == 0 && alive[*i]).collect();
 					if !cands.is_empty() {
 						let id = *g.r.pick(&cands);
+						if zamp[id] && g.r.chance(2, 3) {
+							// link the offset of a zero-amplitude LFO to ANY modulator (earlier, later, itself), at once
+							let m = g.r.below(n as u64) as usize;
+							let target = g.link(m, 1.0, false, false);
+							ops.push(Op::SetLfoParam { id, which: 2, target, tw: Tw { delay_ns: -1, dur_ns: 0, e: Easing::Linear } });
+							continue;
+						}
 						let which = g.r.below(3) as u8;
 						let target = if g.r.chance(1, 2) {
 							// link to ANY modulator: earlier, later, or itself
@@ -1350,7 +1459,15 @@ pub fn run(args: &Args) {
 		};
 		let mut an = analyse(sc, &tr);
 		check_dc(sc, &tr, &mut an.fails);
+		// per history: every unclassified failure, but only the first one of a known class
+		let mut classes_seen: Vec<&'static str> = vec![];
 		for (what, cls) in &an.fails {
+			if let Some(c) = cls {
+				if classes_seen.contains(c) {
+					continue;
+				}
+				classes_seen.push(c);
+			}
 			s.fail(describe(sc), what.clone(), *cls);
 		}
 		let has_dc = sc.ops.iter().any(|o| matches!(o, Op::AddDcSound { .. }));
@@ -1424,7 +1541,7 @@ pub fn run(args: &Args) {
 				}
 				"f15_negative_starting_phase" if !f15_noted => {
 					f15_noted = true;
-					s.notes.push(format!("F15 witness on the implementation (Saw, frequency 0, starting_phase -0.9*TAU, amplitude 1, offset 0): modulator value per chunk = [{}]", vals(0).join(", ")));
+					s.notes.push(format!("F15 regression witness on the implementation (Saw, frequency 0, starting_phase -0.9*TAU, amplitude 1, offset 0; gave -1.8 before the repair): modulator value per chunk = [{}]", vals(0).join(", ")));
 				}
 				_ => {}
 			}
